@@ -16,6 +16,10 @@ func (r *Run) ScanRaceLogs(pkg string) {
 	blocks, total := RaceBlocks(filepath.Join(Root(), ".build"), "race-"+r.Prop+".", pkg)
 	r.Count("race_report_blocks_total", int64(total))
 	r.Count("race_report_signatures_in_emulator", int64(len(blocks)))
+	if total > 0 && len(blocks) == 0 {
+		// reports whose stacks never touch the emulator are races inside the harness: the check itself is broken
+		r.Blind("the race detector reported a data race that involves only harness code; the check is broken, not the emulator")
+	}
 	i := 0
 	for sig, text := range blocks {
 		r.Violation("race", i, "data race reported by the race detector in emulator code: "+sig, map[string]any{"report": text})
